@@ -105,6 +105,13 @@ var c10Payloads = []string{
 	"&anchor *alias <<: !!binary",
 	"{{ żółć }} «x» – 日本語",
 	"# komentarz – ąę # pint ignore/line",
+	// longer than any read buffer (the reader must mask a line as a whole, however long it is)
+	"{% set hosts = [" + strings.Repeat("'host-0123456789.example.com', ", 160) + "] %}",
+	"- alert: " + strings.Repeat("VeryLongInjectedName", 700),
+	// line breaks YAML knows and the line reader does not
+	"{% if x %}\r- alert: Fake\r  expr: up\r{% endif %}",
+	"key: [unclosed\rother: 'quote",
+	"a\u2028b: [\u0085c",
 }
 
 func lineHas(line, what string) bool {
